@@ -551,7 +551,10 @@ Znomap.test,a.ns.nomap.test,dns.nomap.test,5,7200,1800,604800,120,120,,
 =www.nomap.test,9.9.9.1,180,,
 `
 
+// dbSet compiles the data file into each backend on first use.
 type dbSet struct {
+	dir   string
+	in    string
 	paths map[string]string // backend -> path
 }
 
@@ -565,29 +568,36 @@ func buildDBs(scratch string) (*dbSet, error) {
 	if err := os.WriteFile(in, []byte(text), 0o644); err != nil {
 		return nil, err
 	}
-	s := &dbSet{paths: map[string]string{}}
-	cdbPath := filepath.Join(dir, "data.cdb")
-	if _, err := cdb.CreateCDB(in, cdbPath, nil); err != nil {
-		return nil, fmt.Errorf("cdb compile: %w", err)
-	}
-	s.paths["cdb"] = cdbPath
-	for _, v2 := range []bool{false, true} {
-		name := "rdb1"
-		if v2 {
-			name = "rdb2"
-		}
-		p := filepath.Join(dir, name)
-		if err := os.MkdirAll(p, 0o755); err != nil {
-			return nil, err
-		}
-		if _, err := rdb.CompileToSpecificRDBVersion(in, p, rdb.CompilationOptions{UseV2KeySyntax: v2, UseBuilder: true}); err != nil {
-			return nil, fmt.Errorf("%s compile: %w", name, err)
-		}
-		s.paths[name] = p
-	}
-	s.paths["none"] = filepath.Join(dir, "does-not-exist.cdb")
-	return s, nil
+	return &dbSet{dir: dir, in: in, paths: map[string]string{}}, nil
 }
+
+func (s *dbSet) path(backend string) (string, error) {
+	if p, ok := s.paths[backend]; ok {
+		return p, nil
+	}
+	var p string
+	switch backend {
+	case "cdb":
+		p = filepath.Join(s.dir, "data.cdb")
+		if _, err := cdb.CreateCDB(s.in, p, nil); err != nil {
+			return "", fmt.Errorf("cdb compile: %w", err)
+		}
+	case "rdb1", "rdb2":
+		p = filepath.Join(s.dir, backend)
+		if err := os.MkdirAll(p, 0o755); err != nil {
+			return "", err
+		}
+		if _, err := rdb.CompileToSpecificRDBVersion(s.in, p, rdb.CompilationOptions{UseV2KeySyntax: backend == "rdb2", UseBuilder: true}); err != nil {
+			return "", fmt.Errorf("%s compile: %w", backend, err)
+		}
+	default:
+		p = filepath.Join(s.dir, "does-not-exist.cdb")
+	}
+	s.paths[backend] = p
+	return p, nil
+}
+
+func (s *dbSet) remove() { os.RemoveAll(s.dir) }
 
 // recording counter sink: the real metrics.Stats plus the list of calls
 type recStats struct {
@@ -727,7 +737,11 @@ func newServer(dbs *dbSet, backend, cache string) (*server, error) {
 	if strings.HasPrefix(backend, "rdb") {
 		driver = "rocksdb"
 	}
-	h, err := dnsserver.NewFBDNSDBBasic(dnsserver.HandlerConfig{}, dnsserver.DBConfig{Path: dbs.paths[backend], Driver: driver}, cc, s.logger, s.stats)
+	dbPath, err := dbs.path(backend)
+	if err != nil {
+		return nil, err
+	}
+	h, err := dnsserver.NewFBDNSDBBasic(dnsserver.HandlerConfig{}, dnsserver.DBConfig{Path: dbPath, Driver: driver}, cc, s.logger, s.stats)
 	if err != nil {
 		return nil, err
 	}
@@ -1287,8 +1301,7 @@ func run(a *hlib.Args, e *hlib.Emitter) error {
 	if err != nil {
 		return err
 	}
-	defer os.RemoveAll(filepath.Dir(dbs.paths["cdb"]))
-	lap("databases built")
+	defer dbs.remove()
 	if err := queryPart(a, e, dbs); err != nil {
 		return err
 	}
@@ -1327,7 +1340,7 @@ func replay(a *hlib.Args, e *hlib.Emitter, scratch string) error {
 				if err != nil {
 					return err
 				}
-				defer os.RemoveAll(filepath.Dir(dbs.paths["cdb"]))
+				defer dbs.remove()
 			}
 			s, err := newServer(dbs, c.Backend, c.Cache)
 			if err != nil {
